@@ -287,6 +287,10 @@ namespace vctl {
     inline std::atomic<std::uint64_t> g_seed{0};
     inline std::atomic<unsigned> g_num{0}, g_den{100}, g_max_us{200};
     inline char g_filter[256] = "";
+    // "hot" sites: a second, usually longer and more likely, delay distribution for a few sites whose window
+    // needs a whole task to run in between (e.g. between a new task becoming visible and its bookkeeping)
+    inline char g_hot[128] = "";
+    inline std::atomic<unsigned> g_hot_num{0}, g_hot_max_us{0};
     inline std::atomic<std::uint64_t> g_hits{0}, g_delays{0};
 
     inline bool site_selected(char const* site)
@@ -311,11 +315,15 @@ namespace vctl {
         if (!site_selected(site)) return;
         static thread_local vlog::rng r(g_seed.load() ^
             (std::hash<std::thread::id>()(std::this_thread::get_id()) * 0x9e3779b97f4a7c15ull));
-        if (!r.chance(g_num.load(std::memory_order_relaxed), g_den.load(std::memory_order_relaxed)))
+        bool hot = g_hot[0] && std::strncmp(site, g_hot, std::strlen(g_hot)) == 0;
+        if (!r.chance(hot ? g_hot_num.load(std::memory_order_relaxed) : g_num.load(std::memory_order_relaxed),
+                g_den.load(std::memory_order_relaxed)))
             return;
         g_delays.fetch_add(1, std::memory_order_relaxed);
         unsigned kind = static_cast<unsigned>(r.below(4));
-        unsigned us = static_cast<unsigned>(r.below(g_max_us.load(std::memory_order_relaxed) + 1));
+        unsigned us = static_cast<unsigned>(r.below(
+            (hot ? g_hot_max_us.load(std::memory_order_relaxed) : g_max_us.load(std::memory_order_relaxed)) + 1));
+        if (hot) kind = 2;
         if (kind == 0) { sched_yield(); }
         else if (kind == 1)
         {
@@ -338,6 +346,12 @@ namespace vctl {
         if (char const* e = std::getenv("VERIF_PERTURB_PCT")) g_num = (unsigned) std::atoi(e);
         std::strncpy(g_filter, filter ? filter : "", sizeof(g_filter) - 1);
         pika::verif::exchange_hook(&perturb);
+    }
+    inline void hot(char const* site_prefix, unsigned num, unsigned max_us)
+    {
+        std::strncpy(g_hot, site_prefix, sizeof(g_hot) - 1);
+        g_hot_num = num;
+        g_hot_max_us = max_us;
     }
     inline void uninstall() { pika::verif::exchange_hook(nullptr); }
 }    // namespace vctl
